@@ -15,6 +15,7 @@ pub mod c13;
 pub mod c14;
 pub mod c15;
 pub mod c16;
+pub mod c17;
 pub mod c19;
 pub mod e2e_paths;
 
@@ -34,6 +35,7 @@ pub fn run(ctx: &Ctx) -> Option<Report> {
         "C14" => Some(c14::run(ctx)),
         "C15" => Some(c15::run(ctx)),
         "C16" => Some(c16::run(ctx)),
+        "C17" => Some(c17::run(ctx)),
         "C19" => Some(c19::run(ctx)),
         _ => None,
     }
